@@ -793,8 +793,12 @@ impl QueryHashCache {
         // Quantize floats to 16-bit for stable hashing
         // This prevents hash drift from floating-point precision differences
         for &val in embedding {
-            let quantized = (val * 32768.0).round() as i16;
-            quantized.hash(&mut hasher);
+            // Quantize in f64 and hash the integral value itself: an `as i16` cast saturates
+            // for |val| >= 1.0, which made all large components of un-normalized (Euclidean)
+            // queries collide and served one query's cached results to another.
+            // `+ 0.0` canonicalizes -0.0 so both zeros keep hashing alike.
+            let quantized = (f64::from(val) * 32768.0).round() + 0.0;
+            quantized.to_bits().hash(&mut hasher);
         }
 
         hasher.finish()
